@@ -1,3 +1,94 @@
 package main
 
-func ruleC13Extra(prog *Program, rep *Report) {}
+import (
+	"fmt"
+	"go/ast"
+	"go/types"
+	"strings"
+)
+
+// ruleC13Extra: B-twins. The remove / removeOne methods of the fragments (Slice, Union,
+// Wildcard, Nth, Child, Filter) are not part of the evaluator cell table, but each of them
+// holds the same pair of copies: one clause of its type switch for []any and one for
+// gen.Array (and for map[string]any / gen.Object). The index-selection fingerprint of the
+// two clauses of a pair must be equal: which elements go, the compaction loop, the
+// reversal after a downward walk.
+// twinAccepted: differences between twin clauses confirmed by reading to change nothing; any other difference
+// in the same pair is still reported. key -> {only in the first clause, only in the second, reason}.
+var twinAccepted = map[string][3]string{
+	"jp.Slice.remove#1:[]any=gen.Array": {
+		"if start < 0 || end < 0 || LEN <= start || step == 0",
+		"if start < 0 || end < 0 || LEN <= start || LEN <= end || step == 0",
+		"the extra conjunct LEN <= end of the gen.Array copy is dead: the statement before it clamps end to LEN-1",
+	},
+}
+
+func ruleC13Extra(prog *Program, rep *Report) {
+	rep.Rules = append(rep.Rules, "B-twins: in every remove / removeOne method of a jp fragment the type-switch clause for []any and the one for gen.Array (and map[string]any / gen.Object) have the same index-selection fingerprint (integer assignments, integer tests, loop headers - container and element names normalised): the removal touches the same positions in both representations")
+	pk := prog.Pkg("jp")
+	if pk == nil {
+		rep.Errorf("B-twins: package jp not loaded")
+		return
+	}
+	info := pk.TypesInfo
+	pairs := [][2]string{{"[]any", "gen.Array"}, {"map[string]any", "gen.Object"}}
+	compared := 0
+	for _, f := range pk.Syntax {
+		if strings.HasSuffix(prog.Fset.Position(f.Pos()).Filename, "_test.go") {
+			continue
+		}
+		for _, d := range f.Decls {
+			fd, ok := d.(*ast.FuncDecl)
+			if !ok || fd.Body == nil || fd.Recv == nil || (fd.Name.Name != "remove" && fd.Name.Name != "removeOne") {
+				continue
+			}
+			idx := 0
+			ast.Inspect(fd.Body, func(n ast.Node) bool {
+				ts, ok := n.(*ast.TypeSwitchStmt)
+				if !ok {
+					return true
+				}
+				as, ok := ts.Assign.(*ast.AssignStmt)
+				if !ok || len(as.Lhs) != 1 {
+					return true
+				}
+				contVar := as.Lhs[0].(*ast.Ident).Name
+				clauses := map[string]*ast.CaseClause{}
+				for _, cl := range ts.Body.List {
+					cc := cl.(*ast.CaseClause)
+					if len(cc.List) == 1 {
+						clauses[types.ExprString(cc.List[0])] = cc
+					}
+				}
+				idx++
+				for _, p := range pairs {
+					a, b := clauses[p[0]], clauses[p[1]]
+					if a == nil || b == nil {
+						continue
+					}
+					compared++
+					fa := arithFingerprint(prog, pk, a, contVar)
+					fb := arithFingerprint(prog, pk, b, contVar)
+					key := fmt.Sprintf("jp.%s#%d:%s=%s", funcKey(fd), idx, p[0], p[1])
+					if strings.Join(fa, "\n") == strings.Join(fb, "\n") {
+						rep.Discharge("B-twins", key, prog.Pos(a.Pos()), fmt.Sprintf("%d fingerprint lines equal", len(fa)))
+						continue
+					}
+					onlyA, onlyB := diffLines(fa, fb)
+					if acc, ok := twinAccepted[key]; ok && strings.Join(onlyA, " | ") == acc[0] && strings.Join(onlyB, " | ") == acc[1] {
+						rep.Discharge("B-twins", key, prog.Pos(a.Pos()), "accepted difference (read): "+acc[2])
+						continue
+					}
+					rep.Violate(Finding{Rule: "B-twins", Key: key, Pos: prog.Pos(a.Pos()), Msg: fmt.Sprintf("%s treats %s and %s differently: only in the %s clause [%s]; only in the %s clause [%s]", funcKey(fd), p[0], p[1], p[0], strings.Join(onlyA, " | "), p[1], strings.Join(onlyB, " | "))})
+				}
+				_ = info
+				return true
+			})
+		}
+	}
+	rep.Eval(compared)
+	if compared < 6 {
+		rep.Errorf("B-twins compared %d clause pairs (floor 6): anchors did not resolve", compared)
+	}
+}
+
